@@ -32,6 +32,15 @@ CLAIMS = {
     "C17": {"design_ref": "DESIGN.md 7/C17",
             "text": "Coq theorems over ALL histories of public operations (induction over the operation list): the table refines an abstract partial map coalition -> value (known iff set/revealed and not since unset/bulk-reset; known rows have lower = upper = value, Leibniz); bulk bound setters and every bound computer never alter a known row; unknown values are never returned (error / None / NaN); fresh object knows only the empty coalition; negation spec and involution. Correspondence: random histories incl. copy/negation aliasing, duplicates, malformed id lists; all getters compared after every operation; independent abstract-map oracle.",
             "technique": "Coq refinement proof to an abstract map + operation-history correspondence"},
+    "C09": {"design_ref": "DESIGN.md 7/C09",
+            "text": "Coq theorems: invariant of the environment state machine by induction over ANY sequence of reset/step/unstep calls (known = initially known + chosen since the last reset, known rows carry the hidden values, table fresh, step counter), mask / observation / done / info / reset specifications, step+unstep restores the table exactly. Lock-step correspondence of ICG_Gym with the model after every call (all n=3 sequences, sampled n=4,5; every computer, gap function, budget) + an implementation-side oracle (knowledge, mask, observation, reward = -gap of fresh bounds <= 0, done predicate).",
+            "technique": "Coq invariant proof over operation traces + lock-step correspondence"},
+    "C13": {"design_ref": "DESIGN.md 7/C13",
+            "text": "Coq theorems: greedy / worst-greedy return a valid action of maximal / minimal tried reward with ties to the lowest index (also as a function of the reward vector, the form compared in lock-step); largest returns a valid action of maximal coalition size, lowest index; trying an action is a step which unstep undoes exactly. Lock-step correspondence for every registered solver at every reachable n=3 state and sampled n=4,5 states with asymmetric games; expected-greedy search checked against the exhaustive optimum with 1,2,4 processes (implementation-side oracle; not modelled in Coq).",
+            "technique": "Coq proof of first-argmax/argmin selection + lock-step correspondence"},
+    "C16": {"design_ref": "DESIGN.md 7/C16",
+            "text": "Coq theorems: the linear mask allows size k iff an unknown explorable coalition of size k exists; candidates = exactly those coalitions, non-empty when allowed; a linear step IS the underlying step of a candidate; the observation is the per-size sum of the inner observation, of length n. Lock-step correspondence with ICG_Gym_Linear (the sampled coalition read from info and passed to the model).",
+            "technique": "Coq proof over the aggregation (bincount) model + lock-step correspondence"},
 }
 
 PENDING_REASON = "check under construction in this session (DESIGN.md section 9 staging); not claimed until its theorems and correspondence are committed"
